@@ -1,10 +1,10 @@
-INIT MCInitQuick
+INIT ObsInit
 NEXT Next
 CONSTANTS Configs = {}
   CountBasedCheck = FALSE
   SkipEpochWithoutRow = FALSE
   LoadEveryEngine = FALSE
-  LoadOnlyOwnTargets = FALSE
+  LoadOnlyOwnTargets = TRUE
 INVARIANT ImportFaithful
 INVARIANT NoStaleState
 INVARIANT ObsReachFilter
